@@ -1,6 +1,7 @@
 package main
 
 import (
+	"os"
 	"encoding/json"
 	"fmt"
 	"strings"
@@ -199,6 +200,21 @@ func replayShapeSynthetic(c *Ctx, run *ev.Run, s *dagm.Sess, sh kvShape, shuffle
 	}
 }
 
+// c01Part (environment VERIF_C01_PART = types | traces) runs one part of the check only, for
+// development and for the binding self-test; such a run never returns 0 (exit 2 unless it found a
+// violation).
+var c01Part = os.Getenv("VERIF_C01_PART")
+
+func c01Partial(run *ev.Run) int {
+	run.Set("partial_run", c01Part)
+	rc := run.Finish()
+	if rc == 0 {
+		fmt.Printf("C01: PARTIAL RUN (%s only): not a verdict\n", c01Part)
+		return 2
+	}
+	return rc
+}
+
 func checkC01(c *Ctx) int {
 	run := ev.NewRun("C01", c.Tier, "model_checking")
 	t0 := time.Now()
@@ -216,8 +232,19 @@ func checkC01(c *Ctx) int {
 	var states, trans int64
 	algoDiffs := 0
 	var cfgs []string
+	// growth (C01-2): the other datatypes on the same shapes; TLC evaluates them in the background
+	byN := map[int][]kvShape{}
+	var typesPlan *c01TypesPlan
 	doTier := func(n, maxParents int, lastMergeOnly bool, httpAll bool, httpSample int, synthetic bool) {
 		shapes, r := emitShapes(c, n, maxParents, lastMergeOnly)
+		if maxParents == 3 && !lastMergeOnly {
+			byN[n] = shapes
+		}
+		if n == 5 && typesPlan == nil {
+			sh3, _ := emitShapes(c, 3, 3, false)
+			byN[3] = sh3
+			typesPlan = c01TypesStart(c, byN)
+		}
 		states += r.Distinct
 		trans += r.Generated
 		cfgs = append(cfgs, fmt.Sprintf("KVShapes N=%d MaxParents=%d LastMergeOnly=%v: %d shapes x %d placements x %d query nodes", n, maxParents, lastMergeOnly, len(shapes), pow3(n), n))
@@ -229,6 +256,9 @@ func checkC01(c *Ctx) int {
 					}
 				}
 			}
+		}
+		if c01Part != "" {
+			return
 		}
 		parallel(len(shapes), workers, func(wi, i int) {
 			sh := shapes[i]
@@ -280,8 +310,26 @@ func checkC01(c *Ctx) int {
 		doTier(4, 3, false, true, 0, true)
 		doTier(5, 3, false, false, 24, true)
 	}
+	phase := map[string]float64{"keyvalue_shapes_s": since(t0)}
+	tTypes := time.Now()
+	var typeStats *c01TypeStats
+	if c01Part != "traces" {
+		typeStats = c01TypesReplay(c, run, typesPlan, ws)
+		states += typesPlan.states
+		trans += typesPlan.trans
+		nreads += typeStats.reads
+		cfgs = append(cfgs, typesPlan.cfgs...)
+	}
+	phase["other_datatypes_s"] = since(tTypes)
+	tTraces := time.Now()
 	// trace validation: random interleavings of writes, deletes, reads and repo-level requests
-	nTr, nEv := runKVTraces(c, run, c.pick(150, 1500), c.pick(60, 90), c.pick(10, 14), c.thorough(), c01InnerMerge)
+	if c01Part == "types" {
+		return c01Partial(run)
+	}
+	_ = typeStats
+	nTr, nEv := runKVTracesOpt(c, run, c.pick(150, 1500), c.pick(60, 90), c.pick(10, 14), c.thorough(), c01InnerMerge, true)
+	phase["traces_s"] = since(tTraces)
+	run.Set("phase_seconds", phase)
 	run.Set("random_traces_validated_by_tlc", nTr)
 	run.Set("random_trace_events", nEv)
 	run.Set("states", states)
@@ -290,9 +338,12 @@ func checkC01(c *Ctx) int {
 	run.Set("evaluations", nreads)
 	run.Set("tlc_model", cfgs)
 	run.Set("transcription_vs_semantics_differences", algoDiffs)
-	run.Set("rule", "case = (DAG shape, placement of value/tombstone/nothing over the nodes, queried node); TLC (KVShapes.tla) enumerates every shape and evaluates KVRead.Read for every placement; the harness builds each shape through the HTTP API, writes each placement under its own key before the node is committed and GETs/HEADs it at every node; additionally every placement is presented as a synthetic key set to GetBestKeyVersion/VersionedKeyValue in shuffled orders; distinct_nontrivial counts distinct DAG shapes")
-	run.Assume = []string{"TLC bounded enumeration of shapes", "keyvalue datatype on Badger; other datatypes reach the same resolver"}
+	run.Set("rule", "case = (DAG shape, placement of value/tombstone/nothing over the nodes, queried node); TLC (KVShapes.tla) enumerates every shape and evaluates KVRead.Read for every placement; the harness builds each shape through the HTTP API, writes each placement under its own key before the node is committed and GETs/HEADs it at every node; additionally every placement is presented as a synthetic key set to GetBestKeyVersion/VersionedKeyValue in shuffled orders; distinct_nontrivial counts distinct DAG shapes.  Other datatypes (c01_types.go, KVTypes.tla): on every 3- and 4-node shape and a seeded sample of the 5-node shapes with a merge node, a labelmap instance (one block, one label index and one supervoxel mapping per datum), a neuronjson and an annotation instance carry seeded placements (two thirds of them placements in which a merge decides some read; read-modify-write datatypes only placements KVCopy.Built / Strict can build) and every datum is read at every node through the point and the batch / listing endpoints; the oracle is KVRead.ReadNode for every datatype")
+	run.Assume = []string{"TLC bounded enumeration of shapes", "Badger store; labelmap blocks are written with POST blocks?noindexing=true, indices with POST indices, mappings with POST mappings (the ingestion endpoints: one store entry per write), so that a datum's entries are exactly the placement"}
 	fmt.Printf("C01: %v; %d reads compared in %.1fs; transcription/semantics differences=%d; violations=%d known=%v\n",
 		cfgs, nreads, since(t0), algoDiffs, run.Violations(), run.KnownSeen())
+	if c01Part != "" {
+		return c01Partial(run)
+	}
 	return run.Finish()
 }
